@@ -3,6 +3,8 @@ package checks
 import (
 	"bytes"
 	"fmt"
+	"github.com/diskfs/go-diskfs/backend"
+	"github.com/diskfs/go-diskfs/backend/file"
 	"io"
 	"os"
 	"path/filepath"
@@ -127,6 +129,88 @@ func highestWrite(d *memdev.Dev) int64 {
 		}
 	}
 	return hi
+}
+
+// buildISOOnFile: the same, but on a regular file of the operating system (opened read-write, wrapped by file.New), so that
+// whatever the library does differently when the backend is an *os.File is in the path. The finished file is loaded into
+// a memdev (no write log) for the readers and oracles.
+func buildISOOnFile(t *treeSpec, opts iso9660.FinalizeOptions, blocksize, start int64) (img *isoImage, err error) {
+	var content int64
+	for _, b := range t.Files {
+		content += int64(len(b)) + 2*blocksize
+	}
+	size := int64(2<<20) + 2*content + int64(len(t.Dirs)+len(t.Files))*4*blocksize
+	return onFile(start, size, func(b backend.Storage) error {
+		fs, e := iso9660.Create(b, size, start, blocksize, "")
+		if e != nil {
+			return e
+		}
+		defer os.RemoveAll(fs.Workspace())
+		if e = populateWorkspace(fs.Workspace(), t); e != nil {
+			return e
+		}
+		return fs.Finalize(opts)
+	}, func(d *memdev.Dev) *isoImage { return &isoImage{d, size, start, blocksize} })
+}
+
+func buildSquashOnFile(t *treeSpec, opts squashfs.FinalizeOptions, blocksize, start int64) (*sqImage, error) {
+	var content int64
+	for _, b := range t.Files {
+		content += int64(len(b))
+	}
+	size := int64(1<<20) + 2*content + int64(len(t.Dirs)+len(t.Files)+len(t.Links))*512
+	var out *sqImage
+	_, err := onFile(start, size, func(b backend.Storage) error {
+		fs, e := squashfs.Create(b, size, start, blocksize)
+		if e != nil {
+			return e
+		}
+		defer os.RemoveAll(fs.Workspace())
+		if e = populateWorkspace(fs.Workspace(), t); e != nil {
+			return e
+		}
+		return fs.Finalize(opts)
+	}, func(d *memdev.Dev) *isoImage { out = &sqImage{d, size, start, blocksize}; return nil })
+	return out, err
+}
+
+// onFile runs build against a junk-filled scratch file of start+size+64 KiB bytes and loads the result into a memdev; the
+// bytes in front of start and behind start+size must come back as they were.
+func onFile(start, size int64, build func(b backend.Storage) error, wrap func(d *memdev.Dev) *isoImage) (*isoImage, error) {
+	dir := os.Getenv("VERIF_SCRATCH")
+	if dir == "" {
+		dir = os.TempDir()
+	}
+	f, err := os.CreateTemp(dir, "onfile-*.img")
+	if err != nil {
+		return nil, err
+	}
+	defer os.Remove(f.Name())
+	defer f.Close()
+	total := start + size + 64<<10
+	pre := memdev.New(total)
+	dirtyRange(pre, 0, total)
+	before := pre.Bytes(0, total)
+	if _, err = f.WriteAt(before, 0); err != nil {
+		return nil, err
+	}
+	var berr error
+	if pm := guard(func() { berr = build(file.New(f, false)) }); pm != "" {
+		return nil, fmt.Errorf("%s", pm)
+	}
+	if berr != nil {
+		return nil, berr
+	}
+	after := make([]byte, total)
+	if _, err = f.ReadAt(after, 0); err != nil && err != io.EOF {
+		return nil, err
+	}
+	if !bytes.Equal(after[:start], before[:start]) || !bytes.Equal(after[start+size:], before[start+size:]) {
+		return nil, fmt.Errorf("OUTSIDE-RANGE: building on an OS file changed bytes in front of offset %d or behind offset %d", start, start+size)
+	}
+	d := memdev.New(total)
+	d.Poke(after, 0)
+	return wrap(d), nil
 }
 
 // buildISOSized: the range given to the filesystem is exactly [start, start+size).
